@@ -463,6 +463,95 @@ def part_cdf(sh, np, ode, rec, params):
             _exc(sh, "cdf", case, t, e)
 
 
+def part_cdf_pre_eig(sh, np, ode, rec, params):
+    """SolveCDF / SolveUnc(cd_as_force=True) with ``pre_eig=True`` on PHYSICAL (full,
+    symmetric) mass and stiffness: the documented recurrence runs on the modal system
+    (eigh(k, m), unit modal mass, modal damping phi' b phi whose off-diagonal part is the
+    force term) and the answer is mapped back with phi.  The harness does its own eigh."""
+    from scipy.linalg import eigh
+    for ci in range(max(2, params["ncase"] // 4)):
+        r = core.rng(sh.seed, "C17", "cdf-pre", params["slice"], ci)
+        n = int(r.integers(2, 6))
+        f0 = r.uniform(2.0, 8.0)
+        # well separated modal frequencies: the diag / off-diag split of the modal damping
+        # is only defined where the modes are
+        wn = 2 * np.pi * f0 * np.cumprod(r.uniform(1.25, 1.9, n))
+        zeta = r.uniform(0.01, 0.3, n)
+        Qm, _ = np.linalg.qr(r.standard_normal((n, n)))
+        sc = r.uniform(0.5, 3.0, n)
+        Ti = (Qm * sc) @ np.linalg.qr(r.standard_normal((n, n)))[0]     # = inverse of phi
+        M = Ti.T @ Ti
+        K = Ti.T @ (wn[:, None] ** 2 * Ti)
+        M, K = (M + M.T) / 2, (K + K.T) / 2
+        Cm = np.diag(2 * zeta * wn)
+        X = 0.25 * np.diag(Cm).mean() * r.standard_normal((n, n))
+        symmetric = bool(r.random() < 0.5)
+        if symmetric:
+            X = (X + X.T) / 2
+        X[np.arange(n), np.arange(n)] = 0.0
+        B = Ti.T @ (Cm + X) @ Ti
+        h = float(np.exp(r.uniform(np.log(0.1), np.log(1.5)))) / wn.max()
+        h = max(h, 0.0101 / (wn * np.sqrt(1 - zeta ** 2)).min())
+        order = int(r.integers(0, 2))
+        nt = int(np.exp(r.uniform(np.log(2), np.log(120))))
+        F = Ti.T @ (wn[:, None] ** 2 * r.standard_normal((n, nt)))
+        icmode = ["zero", "d0", "v0", "d0v0", "static"][int(r.integers(0, 5))]
+        d0 = r.standard_normal(n) if icmode in ("d0", "d0v0") else None
+        v0 = r.standard_normal(n) * wn.mean() * 0.3 if icmode in ("v0", "d0v0") else None
+        via = "class" if r.random() < 0.5 else "flag"
+        mform = ["2d", "none"][int(r.random() < 0.25)]
+        if mform == "none":
+            M = np.eye(n)
+            Qo = np.linalg.qr(r.standard_normal((n, n)))[0]
+            Ti = Qo.T
+            K = Qo @ (wn[:, None] ** 2 * Qo.T)
+            K = (K + K.T) / 2
+            B = Qo @ (Cm + X) @ Qo.T
+            F = Qo @ (wn[:, None] ** 2 * r.standard_normal((n, nt)))
+        t = {"part": "cdf-pre_eig", "n": n, "order": order, "ic": icmode, "via": via,
+             "symmetric": symmetric, "nt": nt, "mform": mform}
+        case = {"part": "cdf-pre_eig", "slice": params["slice"], "index": ci, "tags": t}
+        sh.case(["cdf-pre", params["slice"], ci, n, nt], True, sample=case)
+        try:
+            m_in = None if mform == "none" else M.copy()
+            if via == "class":
+                ts = ode.SolveCDF(m_in, B.copy(), K.copy(), h, order=order, pre_eig=True)
+            else:
+                ts = ode.SolveUnc(m_in, B.copy(), K.copy(), h, order=order, pre_eig=True,
+                                  cd_as_force=True)
+            sol = ts.tsolve(F.copy(), d0, v0, static_ic=(icmode == "static"))
+            sh.check_equal("cdf-path-taken", bool(ts.cdforces), True, case, t)
+            sh.count("cell:cdf:pre_eig:" + via)
+            sh.count("cell:cdf:pre_eig:m-" + mform)
+
+            def modal_run(Mx, Bx, Kx, noise):
+                w2, phi = eigh(Kx, Mx)
+                Pm = phi.T @ F
+                Cx = phi.T @ Bx @ phi
+                if icmode == "static":
+                    q0 = Pm[:, 0] / w2
+                else:
+                    q0 = None if d0 is None else phi.T @ (Mx @ d0)
+                w0 = None if v0 is None else phi.T @ (Mx @ v0)
+                o = rec.cdf(None, Cx, w2, Pm, h, q0, w0, order=order, noise=noise)
+                return {q: phi @ o[q] for q in "dva"}
+
+            def sym_pert(A):
+                E = r.standard_normal(A.shape)
+                return A * (1 + 1e-13 * (E + E.T) / 2)
+            ref = modal_run(M, B, K, None)
+            runs = [modal_run(sym_pert(M), B * (1 + 1e-13 * r.standard_normal(B.shape)),
+                              sym_pert(K), (r, 1e-13)) for _ in range(6)]
+            for q in "dva":
+                tol, cond = _noise_tol(np, ref[q], [x[q] for x in runs])
+                if cond > 1e8:
+                    sh.refused += 1
+                    break
+                sh.check_close("cdf-pre_eig-" + q, getattr(sol, q), ref[q], tol, case, t)
+        except Exception as e:
+            _exc(sh, "cdf-pre_eig", case, t, e)
+
+
 # ------------------------------------------------------------------------------------
 # part ladder: convergence against the exact continuous response
 # ------------------------------------------------------------------------------------
@@ -822,6 +911,7 @@ def run_shard(sh, params):
         part_int_containers(sh, np, ode, params)
     elif part == "cdf":
         part_cdf(sh, np, ode, rec, params)
+        part_cdf_pre_eig(sh, np, ode, rec, params)
     elif part == "ladder":
         part_ladder(sh, np, ode, rec, lti, params)
     elif part == "stab":
@@ -829,6 +919,7 @@ def run_shard(sh, params):
 
 
 MONITORS = ["nm-d", "nm-v", "nm-a", "nm-z", "nm-no-z", "cdf-d", "cdf-v", "cdf-a",
+            "cdf-pre_eig-d", "cdf-pre_eig-v", "cdf-pre_eig-a",
             "cdf-diag-bit-identical-d", "cdf-diag-bit-identical-v",
             "cdf-diag-bit-identical-a", "cdf-path-taken", "ladder-d", "ladder-v",
             "ladder-judged-d", "ladder-judged-v",
